@@ -71,6 +71,53 @@ def e2e_compare(sc, call, expected, mo):
         return 'labels: model %r, real code %r' % (got[n:], expected[n:])
     return lts_check.compare(sc, mo[:10])
 
+# ---- an independent statement on the implementation's observables: what was dispatched = the messages of the stream ----
+def stream_messages(stream, base11):
+    """(texts of the complete well-framed messages of the octet stream, broken) by a decoder written for this check
+    (RFC 4742 delimiter / RFC 6242 chunks, sizes as any digit string like the code); stops at a frame that is not UTF-8"""
+    out = []
+    if not base11:
+        parts = stream.split(b']]>]]>')
+        for m in parts[:-1]:
+            try: out.append(m.decode('utf-8').strip())
+            except UnicodeDecodeError: return out, True
+        return out, False
+    i, cur = 0, []
+    while i < len(stream):
+        if stream.startswith(b'\n##\n', i):
+            try: out.append(b''.join(cur).decode('utf-8'))
+            except UnicodeDecodeError: return out, True
+            cur = []; i += 4; continue
+        j = i + 2
+        if not stream.startswith(b'\n#', i):
+            return out, not b'\n#'.startswith(stream[i:i + 2])
+        while j < len(stream) and 48 <= stream[j] <= 57: j += 1
+        if j >= len(stream):
+            return out, False                       # header incomplete
+        if j == i + 2 or stream[j] != 10:
+            return out, not (j == i + 2 and stream[j:j + 1] == b'#' and j + 1 >= len(stream))
+        n = int(stream[i + 2:j])
+        if j + 1 + n > len(stream):
+            return out, False                       # chunk incomplete
+        cur.append(stream[j + 1:j + 1 + n]); i = j + 1 + n
+    return out, False
+
+def oracle_stream(sc):
+    """Every message the session dispatched is the next complete message of the octets it read (none skipped, altered,
+    merged or repeated), and a session thread that went back to wait for input has dispatched every complete message."""
+    effs = sc.S.effects[:sc.n_effects]
+    stream = b''.join(e[3] for e in effs if e[1] == 'read' and e[2] == 'data')
+    msgs, broken = stream_messages(stream, bool(sc.spec.get('base11')))
+    disp = [e[2] for e in effs if e[1] == 'dispatch']
+    for i, d in enumerate(disp):
+        if i >= len(msgs) or d != msgs[i]:
+            return ('dispatch %d is not message %d of the octets read: dispatched %r, the stream holds %r' % (i, i, d[:120], (msgs[i][:120] if i < len(msgs) else None)), 'dispatch_not_in_stream')
+    ended = any(e[1] in ('errbcast', 'exit') or (e[1] == 'close') for e in effs)
+    waiting = sc.result in ('finished', 'blocked') and getattr(sc, 'blocked_at', {}).get('W', ('', False))[0] == 'select'
+    if not ended and waiting and len(disp) < len(msgs):
+        return ('the session read %d complete messages but dispatched only %d and waits for more input: message %r is held back' % (len(msgs), len(disp), msgs[len(disp)][:120]), 'message_held_back')
+    return None
+
 def seg_spec(rng, pid):
     spec = gen_spec(rng, pid)
     spec['seg'] = list(rng.choice(SEGS)) if rng.random() < 0.8 else [rng.randint(8, 300) for _ in range(rng.randint(1, 4))]
@@ -129,7 +176,7 @@ def replay_runs(ctx, pid, runs, n_sample, n_seg):
         if is_fresh:
             if sc.result == 'step-limit':
                 ctx.disagree(case, 'run terminates', 'step limit reached', 'scheduler step limit')
-            f = oracle(sc)
+            f = oracle(sc) or oracle_stream(sc)
             if f:
                 ctx.fail(case, f[0], sig=None, expected='property %s' % pid, actual=f[0])
     ctx.extra['e2e_byte_level_replay'] = dict(runs_replayed=len(todo), of_which_resegmented=len(fresh), octets_fed=nb, messages_classified=nmsg)
@@ -138,7 +185,7 @@ def search_seg(ctx, pid, n=600):
     """a re-segmented scenario on which the property's oracle fails on the implementation"""
     oracle = ORACLES[pid]
     def hit(sc):
-        f = oracle(sc)
+        f = oracle(sc) or oracle_stream(sc)
         if f:
             return dict(case=dict(describe(sc.spec, sc.decisions_used), lts=pid, e2e=True), what=f[0], sig=None, expected='property %s' % pid, actual=f[0])
     for spec in PAIRS.get(pid, []):
